@@ -328,7 +328,15 @@ class Machine:
             res = fresh.copy(form=form, frame=frame)
             rs = S.snap(res)
             e = dict(s)
-            e.update(form=rs["form"], frame=rs["frame"], coords=rs["coords"], cov=rs["cov"])
+            # names come from the model, numbers from the pristine conversion
+            e.update(form=H.FORM_SHORT.get(form, form) if form else s["form"], frame=frame or s["frame"],
+                     coords=rs["coords"])
+            if s["cov"] is not None:
+                if s["cov"][0] == s["frame"]:
+                    # documented: a covariance expressed in the frame of its state follows it
+                    e["cov"] = (e["frame"], rs["cov"][1] if rs["cov"] else "")
+                else:
+                    e["cov"] = s["cov"]
             return e
 
         def arg(kind, nm):
@@ -478,9 +486,7 @@ class Machine:
             else:
                 raise RuntimeError(f"unknown op {name}")
         except Exception as exc:
-            if isinstance(exc, (Violation, RuntimeError)) and library_frame(exc.__traceback__) is None:
-                raise
-            self.lib_exc(exc, name)
+            self.lib_exc(exc, name)  # re-raises what does not come out of beyond (harness error)
             touched.add(i)
             if i < len(self.pool):
                 self.shadow[i] = S.snap(self.pool[i])
@@ -628,5 +634,5 @@ _assume_for_development()
 FACETS = [
     Facet("histories", lambda s, t: H.history(), check, setup=setup,
           rule="a maker (copy / pickle / as_orbit ...) followed by a mutation, or a refused op followed by a conversion",
-          quick=(8, 500), thorough=(16, 7500)),
+          quick=(8, 500), thorough=(16, 5000)),
 ]
